@@ -23,7 +23,7 @@ PROPS = ["C01", "C02", "C03", "C04", "C05", "C06", "C07", "C08", "C09", "C10", "
 EXACT = "cx,rect,cxmix,cxshift,rectw,cxabut,cxsub,frames"
 ROUND = "aff-cx,aff-cxmix,aff-cxshift,aff-rect,aff-cxabut,aff-cxsub,lat"
 ALLF = EXACT + ",pinch,holefill,teeth," + ROUND      # "pinch" (many rings through one vertex) is exact too, but has no degenerate variants (kind deg)
-SHARED = "cx,rect,cxabut,cxsub,cxshift,cxmix,aff-cx,rectw,frames,aff-cxabut,frames,lat,pinch,holefill,teeth"      # weighted towards shared boundary segments
+SHARED = "cx,rect,cxabut,cxsub,cxshift,cxmix,aff-cx,rectw,frames,aff-cxabut,frames,lat,pinch,holefill,teeth,onion"      # weighted towards shared boundary segments
 
 
 def ops(kind, fams, count, kmax=3, max_edges=120):
@@ -46,13 +46,14 @@ def plan(prop, tier):
                  [corpus("big27.ndjson"), corpus("fixed_findings.ndjson"), corpus("hand.ndjson"),
                   ops("single", ALLF, 480 if q else 4000, 3 if q else 4, 120 if q else 160),
                   ops("single", "lat,frames,lat,fan,tfan", 600 if q else 6000, 3, 120),   # general slopes, boxes overlapping only a little, thinnest wedges
-                  ops("single", "pinch,holefill,pinch,teeth", 600 if q else 6000, 3, 120),   # many rings through one vertex (also as a T-touch on the edge below), nested operands, interlocking operands
+                  ops("single", "pinch,holefill,onion,teeth,pinch,lamina", 600 if q else 6000, 3, 120),   # many rings through one vertex (also as a T-touch on the edge below), nested operands, interlocking operands
                   ops("single", "bigfan23,bigsliver25,bigfan25,bigsliver20", 200 if q else 2000, 3, 120),   # beyond 2^12 (differences <= 2^25, see DESIGN N5): touch-only operands, arithmetic-free laws
                   tri(2, 840, 3 if q else 1, 0)] + ([] if q else [ops("single", EXACT, 600, 6, 260)]))],
         "C02": [("nesting", {"C02"}, "any", "release",
                  [corpus("fixed_findings.ndjson"), corpus("hand.ndjson"),
                   ops("single", SHARED, 600 if q else 5000, 3 if q else 4, 120 if q else 160),
                   ops("single", "cxabut,cxsub,rect,cxabut", 400 if q else 4000, 5, 220),   # larger regions: holes above shared segments
+                  ops("single", "lamina,onion,lamina,holefill,pinch", 500 if q else 5000, 3, 200),   # nesting: holes above holes, islands stacked in one hole, polygons starting in between
                   tri(2, 840, 3 if q else 1, 1)] + ([] if q else [ops("single", "cx,rect", 600, 6, 260)]))],
         "C04": [("provenance", {"C04"}, "any", "release",
                  [corpus("fixed_findings.ndjson"), corpus("hand.ndjson"),
@@ -60,9 +61,10 @@ def plan(prop, tier):
                   ops("deg", EXACT, 40 if q else 200),
                   ops("single", "rectw", 700 if q else 6000, 4, 160), ops("five", "rectw", 60 if q else 600, 3, 120),
                   ops("single", "tfan,fan,lat", 300 if q else 3000, 3, 120),
+                  ops("single", "lamina,pinch,onion,lamina", 400 if q else 4000, 3, 200),   # ring orientation at nesting depth >= 2
                   tri(2, 840, 3 if q else 1, 2)])],
         "C05": [("partition", {"C05"}, "any", "release",
-                 [ops("five", ALLF, 300 if q else 3000, 3 if q else 4, 100 if q else 140), ops("five", "pinch,holefill,pinch,teeth", 400 if q else 4000, 3, 120)])],
+                 [ops("five", ALLF, 300 if q else 3000, 3 if q else 4, 100 if q else 140), ops("five", "pinch,holefill,onion,teeth,pinch,lamina", 400 if q else 4000, 3, 120)])],
         "C06": [("algebra", {"C06"}, "any", "release",
                  [ops("five", ALLF, 200 if q else 2000, 3 if q else 4, 100 if q else 140),
                   ops("five", "teeth", 3000 if q else 20000, 3, 100),     # interlocking operands: cheap sessions, at volume
@@ -71,7 +73,7 @@ def plan(prop, tier):
                   ops("deg", EXACT, 60 if q else 300)])],
         "C07": [("representation", {"C07"}, "any", "release",
                  [ops("repr", ALLF, 120 if q else 1200, 3 if q else 4, 90 if q else 130),
-                  ops("repr", "pinch,holefill,pinch,cxsub", 160 if q else 1600, 3, 120),    # single polygons with (triangular / rectangular) holes: polygon vs one-element multipolygon
+                  ops("repr", "pinch,holefill,pinch,cxsub,onion", 160 if q else 1600, 3, 120),    # single polygons with (triangular / rectangular) holes: polygon vs one-element multipolygon
                   ops("repr", "bigsliver25,bigfan25,bigsliver20", 90 if q else 900, 3, 90),
                   ops("repr32", "bigsliver20,bigsliver14,bigfan22,bigsliver23", 120 if q else 1200, 3, 90)])],
         "C08": [("transforms", {"C08"}, "any", "release",
